@@ -41,6 +41,7 @@
 //! `no-overload:leading-whitespace` (the literal starts with a character the compiler's lexer
 //! skips — form feed, U+FEFF — that `WhitespaceCharacter` lacks), `no-overload:header-layout`
 //! (the header is not the single-space canonical `kind Type.field` form the patterns spell),
+//! `no-overload:whitespace-set-incomplete` (a leading space, tab or line feed is not stripped),
 //! `no-overload:other`, `wrong-overload:prefix` (an earlier overload's pattern is a prefix),
 //! `wrong-overload:return-type`, `wrong-overload:underscore-name-collision` (the return type
 //! has the expected name but is imported from another declaration's directory: `A.b__c` and
@@ -412,8 +413,11 @@ pub fn check_literal(iso: &IsoFile, lit: &IsoLiteral) -> Result<(), Fail> {
                 match header_layout(lit) {
                     HeaderLayout::LeadingNonTsWhitespace => "no-overload:leading-whitespace",
                     HeaderLayout::NonCanonicalInside => "no-overload:header-layout",
+                    // a canonical literal whose leading space / tab / line feed was not stripped:
+                    // the WhitespaceCharacter union of iso.ts has lost a member (not the open
+                    // finding, which is about form feed and U+FEFF)
                     HeaderLayout::Canonical if stripped.chars().next().is_some_and(is_compiler_ws) => {
-                        "no-overload:leading-whitespace"
+                        "no-overload:whitespace-set-incomplete"
                     }
                     _ => "no-overload:other",
                 }
